@@ -26,6 +26,37 @@ class Infra(Exception):
     pass
 
 
+def _unlisted_uid():
+    """a uid without a passwd entry: Go's user.Current() then falls back to $HOME, which lets a run
+    use a scratch home directory (the default configuration file lives under the home directory)"""
+    if os.geteuid() != 0:
+        return None
+    try:
+        import pwd
+        for uid in (54321, 54322, 61234):
+            try:
+                pwd.getpwuid(uid)
+            except KeyError:
+                return uid
+    except Exception:
+        pass
+    return None
+
+
+SCRATCH_UID = _unlisted_uid()
+
+
+def as_scratch_user():
+    return {'user': SCRATCH_UID, 'group': SCRATCH_UID, 'extra_groups': []} if SCRATCH_UID else {}
+
+
+def open_up(path):
+    try:
+        os.chmod(path, 0o777)
+    except OSError:
+        pass
+
+
 def hx(b):
     if isinstance(b, str):
         b = b.encode('utf-8')
@@ -170,18 +201,20 @@ class GoDriver:
         work = os.path.join(base, 'work')
         os.makedirs(home, exist_ok=True)
         os.makedirs(work, exist_ok=True)
+        for d in (base, home, work):
+            open_up(d)
         return base, home, work
 
     def run_shard(self, shard, base, home, work):
         env = {k: v for k, v in os.environ.items() if not k.startswith('HR_')}
-        env.update({'HR_VERIF_DRIVER': '1', 'HOME': home, 'GOMEMLIMIT': '1GiB', 'TZ': 'UTC'})
+        env.update({'HR_VERIF_DRIVER': '1', 'HOME': home, 'USER': 'verif', 'GOMEMLIMIT': '1GiB', 'TZ': 'UTC'})
         res = {}
         pending = list(shard)
         while pending:
             lines = [json.dumps(c) for c in pending]
             try:
                 p = subprocess.run(['/bin/sh', '-c', 'ulimit -v 4000000; exec "$0"', self.binary],
-                                   input=('\n'.join(lines) + '\n').encode(), capture_output=True, env=env, cwd=work, timeout=900)
+                                   input=('\n'.join(lines) + '\n').encode(), capture_output=True, env=env, cwd=work, timeout=900, **as_scratch_user())
                 outs = p.stdout.decode('utf-8', 'replace').split('\n')
                 rc = p.returncode
                 stderr = p.stderr.decode('utf-8', 'replace')
@@ -234,6 +267,8 @@ def run_real_binary(binary, argv, files, env_extra=None, tz='UTC', stdout_to=Non
     work = os.path.join(base, 'work')
     os.makedirs(home)
     os.makedirs(work)
+    for d in (base, home, work):
+        open_up(d)
     try:
         for name, data in files.items():
             if isinstance(name, bytes):
@@ -242,22 +277,23 @@ def run_real_binary(binary, argv, files, env_extra=None, tz='UTC', stdout_to=Non
                 f.write(data)
         if home_config is not None:
             os.makedirs(os.path.join(home, '.hranoprovod'))
+            open_up(os.path.join(home, '.hranoprovod'))
             with open(os.path.join(home, '.hranoprovod', 'config'), 'wb') as f:
                 f.write(home_config)
         env = {k: v for k, v in os.environ.items() if not k.startswith('HR_')}
-        env.update({'HOME': home, 'TZ': tz})
+        env.update({'HOME': home, 'USER': 'verif', 'TZ': tz})
         env.update(env_extra or {})
         args = [binary] + [a.decode('utf-8', 'surrogateescape') if isinstance(a, bytes) else a for a in argv]
         if stdout_to == 'full':
             with open('/dev/full', 'wb') as sink:
-                p = subprocess.run(args, cwd=work, env=env, stdout=sink, stderr=subprocess.PIPE, timeout=timeout)
+                p = subprocess.run(args, cwd=work, env=env, stdout=sink, stderr=subprocess.PIPE, timeout=timeout, **as_scratch_user())
             return p.returncode, b'', p.stderr
         if stdout_to == 'closed':
-            p = subprocess.Popen(args, cwd=work, env=env, stdout=subprocess.PIPE, stderr=subprocess.PIPE)
+            p = subprocess.Popen(args, cwd=work, env=env, stdout=subprocess.PIPE, stderr=subprocess.PIPE, **as_scratch_user())
             p.stdout.close()
             _, err = p.communicate(timeout=timeout)
             return p.returncode, b'', err
-        p = subprocess.run(args, cwd=work, env=env, capture_output=True, timeout=timeout)
+        p = subprocess.run(args, cwd=work, env=env, capture_output=True, timeout=timeout, **as_scratch_user())
         return p.returncode, p.stdout, p.stderr
     finally:
         shutil.rmtree(base, ignore_errors=True)
@@ -311,7 +347,8 @@ def obs_equal(impl, model, exact=True, fields=('status', 'class', 'out')):
     if impl.get('status') != model.get('status'):
         return False
     if impl.get('status') == 'err':
-        if impl.get('class') != model.get('class'):
+        mclass = {'configMissing': 'other', 'badToday': 'date', 'badDepth': 'other'}.get(model.get('class'), model.get('class'))
+        if impl.get('class') != mclass:
             return False
         if model.get('class') in ('badSyntax', 'conversion'):
             if impl.get('text') != model.get('text'):
